@@ -209,6 +209,47 @@ func c06RandomItems(c *core.Ctx, web bool) []c06Item {
 			add(t, source)
 		}
 	}
+	if c.Rng.Intn(12) == 0 {
+		// Two different rules whose whole texts have the same 32-bit hash
+		// (what a large enough set of lists contains by chance): a blocking
+		// rule and an exception, or a plain and an important rule.
+		type pre struct {
+			a, b       string
+			ea, ia, eb bool
+			ib         bool
+		}
+		pres := []pre{
+			{a: "||ads.com^$domain=site.com|", b: "@@||ads.com^$domain=site.com|", eb: true},
+			{a: "||ads.com^$important,domain=site.com|", b: "@@||ads.com^$domain=site.com|", ia: true, eb: true},
+			{a: "||ads.com^$domain=site.com|", b: "||ads.com^$important,domain=site.com|", ib: true},
+		}
+		if !web {
+			pres = []pre{
+				{a: "||ads.com^$denyallow=other.org|", b: "@@||ads.com^$denyallow=other.org|", eb: true},
+				{a: "@@||ads.com^$denyallow=other.org|", b: "||ads.com^$important,denyallow=other.org|", ea: true, ib: true},
+			}
+		}
+		pr := pres[c.Rng.Intn(len(pres))]
+		if pairs := gen.CrossCollisions(pr.a, pr.b, 300000); len(pairs) > 0 {
+			p := pairs[c.Rng.Intn(len(pairs))]
+			// (the same ending on both keeps the hashes equal)
+			p[0], p[1] = p[0]+".com", p[1]+".com"
+			mk := func(text, prefix string, exc, imp bool) c06Item {
+				sp := &gen.Spec{Pattern: "||ads.com^", Exception: exc, Important: imp}
+				tail := text[len(prefix):]
+				if web {
+					sp.Domains = []gen.Val{{Name: "site.com"}, {Name: tail}}
+				} else {
+					sp.DenyAllow = []string{"other.org", tail}
+				}
+
+				return c06Item{Spec: sp, Text: text}
+			}
+			items = append(items, mk(p[0], pr.a, pr.ea, pr.ia), mk(p[1], pr.b, pr.eb, pr.ib))
+			items = util.Shuffle(c.Rng, items)
+			c.Event("multisets_with_hash_colliding_rule_texts", 1)
+		}
+	}
 
 	return items
 }
@@ -510,6 +551,7 @@ func init() {
 		Level: "exploration",
 		Rule: "exhaustive part: every subset of up to 3 (thorough 4) shapes of a 45-shape catalogue (request-side: exception x important x {generic, $domain-specific, ~domain-only}, document-level exceptions, $dnsrewrite, $stealth, badfilter twins; referrer-side: document-level exceptions (also with two options on one rule) x important, plain rules, $stealth, badfilter twins) in ALL permutations; sampled part: multisets of 1..5 (one in forty: 13..60, in 24 PRNG-drawn orders) matching rules (plus badfilter twins) over {exception} x {important} x {generic, $domain-specific, ~domain-only} x {no doc modifier, urlblock, genericblock, elemhide, document} x {$dnsrewrite} x {$stealth}, request-side and referrer-side; " +
 			"ALL permutations of every multiset through NewMatchingResult / GetDNSBasicRule, and every fifth permutation through Engine.MatchRequest, NetworkEngine.Match and DNSEngine.MatchRequest with a random split into 1..3 lists; " +
+			"one sampled multiset in twelve also holds two different rules whose whole texts have the same 32-bit hash (block vs exception, plain vs important); " +
 			"oracle = precedence reference on specs (class in block/allow/none) plus invariants on the selected rule; non-trivial = every multiset (distinct by sorted rule texts and sides)",
 		Assumptions: []string{
 			"a referrer-level $urlblock exception suppresses every blocking rule including $important ones, as the statement says 'every blocking rule'",
